@@ -842,3 +842,42 @@ func init() {
 		return tuple{[]value(nil), (*value)(nil), fr.i.newError("invalid CIDR address: " + s)}
 	}
 }
+
+func init() {
+	// vpStubIP(text, ip16): what net.ParseIP returns for a concrete textual address (nil = unparsable)
+	harnessAPI["vpStubIP"] = func(fr *frame, args []value) value {
+		s, _ := args[0].(string)
+		fr.i.path.fs["parseip:"+s] = args[1]
+		return nil
+	}
+	// fmt.Sscanf on concrete input with integer verbs only
+	externals["fmt.Sscanf"] = func(fr *frame, args []value) value {
+		str, ok1 := args[0].(string)
+		format, ok2 := args[1].(string)
+		if !ok1 || !ok2 {
+			fr.i.abort("unsupported", "fmt.Sscanf on a string with symbolic bytes")
+		}
+		ptrs := args[2].([]value)
+		ints := make([]int, len(ptrs))
+		ga := make([]interface{}, len(ptrs))
+		for k := range ptrs {
+			itf := ptrs[k].(iface)
+			pt, ok := itf.t.Underlying().(*types.Pointer)
+			if !ok {
+				fr.i.abort("unsupported", "fmt.Sscanf operand %v", itf.t)
+			}
+			if b, ok := pt.Elem().Underlying().(*types.Basic); !ok || b.Kind() != types.Int {
+				fr.i.abort("unsupported", "fmt.Sscanf operand %v", itf.t)
+			}
+			ga[k] = &ints[k]
+		}
+		n, err := fmt.Sscanf(str, format, ga...)
+		for k := 0; k < n && k < len(ptrs); k++ {
+			*(ptrs[k].(iface).v.(*value)) = ints[k]
+		}
+		if err != nil {
+			return tuple{n, fr.i.newError(err.Error())}
+		}
+		return tuple{n, iface{}}
+	}
+}
